@@ -3,6 +3,7 @@ C11 instantiated with the transcribed package decoders (`Codec.ops`, Model/Codec
 -/
 import Dblib.Props.C11.Abstract
 import Dblib.Props.C02.Concrete
+import Dblib.Props.C11.History
 
 namespace Dblib.Props.C11
 open Dblib Dblib.Rx Dblib.Codec Dblib.Props.C02
@@ -15,6 +16,16 @@ theorem c11_concrete_events (rx : Rx Pkg) (T : Bytes) (pkgs : List Pkg) (cs : Li
       some (withBuf rx none [] false,
         pkgs.flatMap (acceptEv Codec.ops rx.nEed rx.nEnv) ++ synthDone Codec.ops (pkgs.foldl (lastAfter Codec.ops) rx.last)) :=
   c11_events_of_any_cut Codec.ops select_incr rx T pkgs cs hbuf heom hc hW hne hcs
+
+/-- histories of responses of real packages: the events are those of each response on its own -/
+theorem c11_concrete_history_events (rs : List (Dblib.Props.C03.Resp Pkg)) (rx : Rx Pkg)
+    (hall : ∀ r ∈ rs, WholeP Codec.ops none r.T r.pkgs ∧ r.cs ≠ [] ∧ r.cs.flatten = r.T)
+    (hb : rx.buf = []) (he : rx.eom = false) (hc : rx.closed = false) (hl : rx.last = none) :
+    ∃ rx', feed Codec.ops rx (rs.flatMap (fun r => markLast r.cs))
+        = some (rx', rs.flatMap (respEvents Codec.ops rx.nEed rx.nEnv))
+      ∧ rx'.buf = [] ∧ rx'.eom = false ∧ rx'.last = none ∧ rx'.closed = false
+      ∧ rx'.nEed = rx.nEed ∧ rx'.nEnv = rx.nEnv :=
+  c11_history_events Codec.ops select_incr rs rx hall hb he hc hl
 
 /-- an EED package without the TDS_EED_INFO status bit: every hook once, in order, then delivery -/
 theorem c11_concrete_eed (nEed nEnv : Nat) (e : Basic.EED) (h : e.status % 4 / 2 ≠ 1) :
